@@ -86,21 +86,22 @@ type Thread struct {
 }
 
 type Machine struct {
-	prog     *ssa.Program
-	ld       *Loader
-	cfg      *HarnessCfg
-	solver   *Solver
-	threads  []*Thread
-	cur      *Thread
-	nextObj  int
-	globals  map[*ssa.Global]*Obj
-	inited   map[*ssa.Package]int // 0 no, 1 running, 2 done
-	finfo    map[*ssa.Function]*funcInfo
-	persist  bool // allocations are persistent (package init)
-	epoch    int
-	undo     []undoRec
-	steps    int64
-	maxSteps int64
+	uniqueObjs map[string]*Obj // unique.Make interning (persistent, filled during package init)
+	prog       *ssa.Program
+	ld         *Loader
+	cfg        *HarnessCfg
+	solver     *Solver
+	threads    []*Thread
+	cur        *Thread
+	nextObj    int
+	globals    map[*ssa.Global]*Obj
+	inited     map[*ssa.Package]int // 0 no, 1 running, 2 done
+	finfo      map[*ssa.Function]*funcInfo
+	persist    bool // allocations are persistent (package init)
+	epoch      int
+	undo       []undoRec
+	steps      int64
+	maxSteps   int64
 
 	// path state
 	ex *Explorer
@@ -259,7 +260,7 @@ func (m *Machine) constValue(c *ssa.Const) Value {
 			}
 			return BVC(w, uint64(c.Int64()))
 		case u.Info()&types.IsFloat != 0:
-			return FloatV{c.Float64(), floatWidth(u)}
+			return FloatV{F: c.Float64(), W: floatWidth(u)}
 		case u.Info()&types.IsString != 0:
 			return strConst(constString(c))
 		case u.Info()&types.IsComplex != 0:
